@@ -27,8 +27,8 @@ verus! {
 //@item core/src/message/shutdown.rs struct Shutdown
 //@item core/src/message/channel_end_closed.rs struct ChannelEndClosed
 
-impl IntoMessage for Shutdown { open spec fn min_minor() -> u32 { 0 } }
-impl IntoMessage for ChannelEndClosed { open spec fn min_minor() -> u32 { 0 } }
+impl IntoMessage for Shutdown { open spec fn min_minor() -> u32 { 0 } open spec fn allowed_for(&self, receiver: &ConnectionState) -> bool { true } }
+impl IntoMessage for ChannelEndClosed { open spec fn min_minor() -> u32 { 0 } open spec fn allowed_for(&self, receiver: &ConnectionState) -> bool { true } }
 
 //@include _shared/registry_preamble_b.rs
 
